@@ -196,9 +196,27 @@ pub(crate) mod verif_mutex {
         bits
     }
 
+    /// C03 "through the waker supplied at that last poll", for wakers that differ only in their vtable.
+    pub fn waker_identity<M: RawMutex, S: Src>(s: &mut S, p: u32) -> u32 {
+        let fair = s.flag();
+        let m = GenericMutex::<M, u32>::new(0, fair);
+        let g = m.try_lock();
+        let c = DualCell::new();
+        let mut f = ManuallyDrop::new(m.lock());
+        let both_pending = dual_repoll(unsafe { Pin::new_unchecked(&mut *f) }, &c);
+        oracle!(p, P02, both_pending && g.is_some(), "C02 mutex: a lock future completed while a guard is alive");
+        drop(g);
+        if both_pending {
+            oracle!(p, P03, c.b.get() >= 1, "C03 mutex: the mutex is free but the pending lock future was not woken through the waker of its latest poll (same data pointer, other vtable)");
+        }
+        s.reached(c.b.get());
+        c.b.get()
+    }
+
     #[no_mangle]
     pub fn fi_verif_replay_mutex(name: &str, cfg: u32, p: u32, s: &mut ScriptSrc<'_>) -> bool {
         match name {
+            "mutex_waker_identity" => { waker_identity::<NoopLock, _>(s, p); }
             "mutex_hist_noop" => { hist::<NoopLock, _>(s, cfg, 64, p); }
             "mutex_hist_check" => { hist::<CheckLock, _>(s, cfg, 64, p); }
             _ => return false,
@@ -530,6 +548,9 @@ pub(crate) mod verif_mutex {
     #[cfg(kani)]
     mod proofs {
         use super::*;
+        #[kani::proof]
+        #[kani::unwind(3)]
+        fn waker_identity_c03() { let b = waker_identity::<NoopLock, _>(&mut KaniSrc, P03); kani::cover!(b >= 1, "W mutex: woken through the latest waker"); }
         #[kani::proof]
         #[kani::unwind(3)]
         fn repoll_panics() {
